@@ -25,7 +25,7 @@ MODEL_FILES = ["Model", "Run"]
 
 # instances per class in the reflection sweep
 QUOTA = {"quick": {"Field": 3, "Data": 4, "Domain": 2, "Constructs": 2, "*": 1},
-         "thorough": {"Field": 14, "Data": 24, "Domain": 10, "Constructs": 10, "*": 8}}
+         "thorough": {"Field": 10, "Data": 20, "Domain": 6, "Constructs": 6, "*": 6}}
 # labels that are always included (minimised past failures / structurally special)
 ALWAYS = ["g0", "f6.auxiliarycoordinate0", "data.masked", "array.numpy.masked", "f3c.data", "f1.coordinatereference1",
           "f1.dimensioncoordinate0", "cellmethod.new", "file-netCDF4-0.data"]
@@ -72,7 +72,7 @@ def choose_labels(chk, labels):
         for l in ls:
             if have >= q:
                 break
-            if chk.tier == "quick" and (l in SLOW or any(l == s + x for s in SLOW for x in (".domain", ".constructs",
+            if (chk.tier == "quick" or l != "file-netCDF4-1") and (l in SLOW or any(l == s + x for s in SLOW for x in (".domain", ".constructs",
                                                                                           ".constructs.filtered"))):
                 continue
             if l not in chosen:
@@ -147,8 +147,18 @@ def run(chk, model_ok):
     # ---- (1) reflection sweep ------------------------------------------------------------------
     nw = 16
     # spread big classes over the workers
-    order = sorted(chosen, key=lambda l: (-len(inv["inventory"].get(cls_of[l], [])), l))
-    shards = [order[i::nw] for i in range(nw)]
+    def cost(l):
+        w = 6 if cls_of[l] in ("Field", "Domain", "Constructs") else 1
+        if l.startswith("file-"):
+            w *= 4
+        return w * len(inv["inventory"].get(cls_of[l], []))
+    order = sorted(chosen, key=lambda l: (-cost(l), l))
+    shards = [[] for _ in range(nw)]
+    load = [0] * nw
+    for l in order:                     # longest-processing-time-first balancing
+        k = load.index(min(load))
+        shards[k].append(l)
+        load[k] += cost(l)
     shards = [s for s in shards if s]
     res = lib.run_workers_parallel(
         "drive/c04.py",
